@@ -233,7 +233,7 @@ def write_case(dirpath, tag, ms, policy, extra=None):
     return a, g
 
 
-def random_ops(rng, nmembers, free_early=0.1):
+def random_ops(rng, nmembers, free_early=0.1, policy_switch=0.0):
     """caller discipline of C15/C20: per entry at most one decode operation (reads in pieces | check |
     extract) and one extract; calls continue after the end is reached"""
     ops = []
@@ -252,7 +252,30 @@ def random_ops(rng, nmembers, free_early=0.1):
             ops.append("C")
         else:
             ops.append("X")
+        if policy_switch and rng.random() < policy_switch:
+            ops.append("P" + rng.choice(["plain", "eod", "eof"]))     # lha_reader_set_dir_policy in the middle of the archive
         if rng.random() < free_early / max(steps, 1) * 3:
             ops.append("Q")
             break
     return ops
+
+
+def policy_switch_cases():
+    """lha_reader_set_dir_policy in the middle of an archive, while extracted directories are waiting to be presented again:
+    (members, initial policy, operations)"""
+    out = []
+    for first in ("eod", "eof", "plain"):
+        for second in ("plain", "eod", "eof"):
+            if first == second:
+                continue
+            for at in (1, 2, 4):
+                ms = [G("dir", b"d"), G("file", b"d/f.txt", data=b"f"), G("dir", b"d/sub"), G("file", b"d/sub/g.txt", data=b"g"), G("file", b"z.txt", data=b"z")]
+                ops = []
+                for i in range(len(ms)):
+                    ops += ["N", "X"]
+                    if i + 1 == at:
+                        ops.append("P" + second)
+                ops += ["N", "X", "N", "X", "N", "N"]
+                out.append((ms, first, ops))
+                out.append((ms, first, ops[:ops.index("P" + second) + 1]))        # ... and the archive abandoned right after the switch
+    return out
